@@ -382,6 +382,35 @@ def file_cases(ctx, op, extends=(False,)):
     return out
 
 
+def corpus(ctx, op='contact_atoms', extends=(False,)):
+    """small hand-made structures, run first (so that a replay is small whenever a small structure shows the failure):
+    two atoms exactly on / one lattice step inside / outside every cutoff; a hub atom in contact with two other chains;
+    filters that differ on the two sides; residues that share a number but differ in name or chain"""
+    out = []
+    for c in CUTS:
+        v = EXACT[c][len(EXACT[c]) // 2]
+        for delta in (0, -1, 1):
+            w = list(v)
+            k = max(range(3), key=lambda i: w[i])
+            w[k] += delta
+            lines = [atom_line(1, ' CA ', 'ALA', 'A', 1, 0, 0, 0), atom_line(2, ' CA ', 'GLY', 'B', 1, w[0] / 4.0, w[1] / 4.0, w[2] / 4.0)]
+            out += option_cases(op, {'lines': lines}, ['A', 'B'], [c], 'corpus:at-cutoff', extends)
+    hub = [atom_line(1, ' CA ', 'LYS', 'A', 5, 0, 0, 0), atom_line(2, ' CA ', 'ALA', 'B', 1, 3, 4, 0), atom_line(3, ' HA ', 'ALA', 'B', 1, 3, 3.75, 0),
+           atom_line(4, ' N  ', 'GLY', 'C', 5, 0, -3, -4), atom_line(5, ' CB ', 'GLY', 'C', 7, 40, 0, 0), atom_line(6, ' O  ', 'ALA', 'B', 2, 3.25, 4, 0)]
+    out += option_cases(op, {'lines': hub}, ['A', 'B', 'C'], [5.0], 'corpus:hub', extends)
+    hub2 = [hub[1], hub[3], hub[0], hub[2], hub[5], hub[4]]          # the hub's chain in the middle of the table
+    out += option_cases(op, {'lines': hub2}, ['B', 'C', 'A'], [5.0], 'corpus:hub', extends)
+    for n1, n2 in itertools.product([' CA ', ' H  ', '1HB ', ' CB '], repeat=2):
+        lines = [atom_line(1, n1, 'ALA', 'A', 1, 0, 0, 0), atom_line(2, n2, 'ALA', 'B', 1, 3, 0, 0), atom_line(3, ' CA ', 'ALA', 'B', 2, 0, 3, 0),
+                 atom_line(4, ' HA ', 'ALA', 'A', 2, 0, 0, 3)]
+        out += option_cases(op, {'lines': lines}, ['A', 'B'], [3.0], 'corpus:filters-two-sides', extends)
+    lines = [atom_line(1, ' CA ', 'ALA', 'A', 7, 0, 0, 0), atom_line(2, ' CB ', 'ALA', 'A', 7, 40, 0, 0), atom_line(3, ' CA ', 'GLY', 'A', 7, 80, 0, 0),
+             atom_line(4, ' CA ', 'ALA', 'B', 7, 3, 0, 0), atom_line(5, ' O  ', 'ALA', 'B', 7, 90, 0, 0), atom_line(6, ' N  ', 'GLY', 'B', 7, 95, 0, 0),
+             atom_line(7, ' CA ', 'ALA', 'C', -7, 0, 3, 0), atom_line(8, ' CB ', 'ALA', 'C', -7, 0, 60, 0)]
+    out += option_cases(op, {'lines': lines}, ['A', 'B', 'C'], [3.0], 'corpus:residue-keys', extends)
+    return out
+
+
 def cases(ctx):
     out = structure_cases(ctx, 'contact_atoms', ctx.scale(36, 400))
     out += malformed_cases(ctx, 'contact_atoms', ctx.scale(6, 40))
@@ -556,6 +585,16 @@ def extra_checks(ctx):
     res.append({'name': 'all-chains sets = union of the two-chain sets over the other chains', 'ok': bad_union is None, 'case': bad_union, 'detail': ''})
     res.append({'name': 'all-chains pair map = every pair of the two-chain maps (first-sorting chain first) exactly once', 'ok': bad_once is None,
                 'case': bad_once, 'detail': ''})
+    # the constants the Model takes from the source: default cutoffs and backbone names as the running library has them
+    import inspect, vlib
+    ans = vlib.run_driver([{'op': 'contact_defaults'}, {'op': 'backbone_names'}], which='model', cluster='C')
+    d_atoms = inspect.signature(interface.get_contact_atoms).parameters['cutoff'].default
+    d_res = inspect.signature(interface.get_contact_residues).parameters['cutoff'].default
+    probe = interface([atom_line(1, ' CA ', 'ALA', 'A', 1, 0, 0, 0)])
+    ok = (ans[0]['model'] == {'atoms': rat(float(d_atoms)), 'residues': rat(float(d_res))} and ans[1]['model'] == list(probe.backbone_atoms)
+          and sorted(probe.backbone_atoms) == sorted(BACKBONE))
+    res.append({'name': 'generated constants (default cutoffs, backbone names) equal those of the running library and the published backbone names',
+                'ok': ok, 'case': {'model': ans, 'library': [d_atoms, d_res, list(probe.backbone_atoms)]}, 'detail': ''})
     # regression probe: blank atom name with excludeH (raised IndexError before the repair 01b6302)
     L = [atom_line(1, ' CA ', 'ALA', 'A', 1, 0, 0, 0), atom_line(2, '    ', 'ALA', 'B', 1, 1, 0, 0)]
     try:
